@@ -317,6 +317,30 @@ def c15(report, rng, tier, findings):
                 continue
             if k != 1:
                 continue
+        if rng.random() < 0.25:
+            # a CORRELATED the(...): the sub-query mentions the outer variable, which an earlier conjunct has bound, and
+            # has exactly one solution per outer value (z.ref is a permutation of the objects): x.f op the(entity(z, z.ref == x)).g
+            n_o = len(base['objs'])
+            perm = list(range(n_o))
+            rng.shuffle(perm)
+            base['objs'] = [(j, c_, {**attrs, 'ref': ('o', perm[j])}) for j, c_, attrs in base['objs']]
+            all_o = [('o', j) for j in range(n_o)]
+            base['vars'] = [(x, 'A', list(all_o)), (z, 'A', list(all_o))]
+            link = ('cmp', 'eq', ('attr', 'ref', ('var', z)), ('var', x))
+            if rng.random() < 0.5:
+                link = ('cmp', 'eq', ('var', x), ('attr', 'ref', ('var', z)))
+            first = gx.atom() if rng.random() < 0.5 else ('cmp', 'ge', ('attr', 'a', ('var', x)), ('lit', ('i', 0)))
+            f, g_ = rng.choice('ab'), rng.choice('ab')
+            op = rng.choice(('eq', 'ne', 'lt', 'ge'))
+            sqc = ('subq', 'the', z, link)
+            atom_i = ('cmp', op, ('attr', f, ('var', x)), ('attr', g_, sqc))
+            atom_e = ('cmp', op, ('attr', f, ('var', x)), ('attr', g_, ('var', z)))
+            case = dict(base)
+            case.update({'sel': [('var', x)], 'entity': True, 'cond': [first, atom_i],
+                         'explicit': {**base, 'sel': [('var', x)], 'entity': True, 'cond': [first, link, atom_e]},
+                         'operand_quant': 'the_correlated'})
+            ocases.append(case)
+            continue
         sq = ('subq', quant, z) + tuple(inner)
         shape = rng.choice(('attr', 'attr', 'obj', 'expr', 'expr'))
         if shape == 'expr':
@@ -632,10 +656,11 @@ def gen_nested_case(rng, cid, scalars=True):
             items = rng.choice(pool)               # a non-iterable value: counts as a single element
         else:
             k = rng.randint(1, 3)
+            kind_ = 't' if rng.random() < 0.25 else 'l'          # a quarter of the inner collections are TUPLES
             if rng.random() < 0.8:
-                items = ('l',) + tuple(rng.sample(pool, k))     # no repeated element inside one collection
+                items = (kind_,) + tuple(rng.sample(pool, k))     # no repeated element inside one collection
             else:
-                items = ('l',) + tuple(rng.choice(pool) for _ in range(k))
+                items = (kind_,) + tuple(rng.choice(pool) for _ in range(k))
         objs.append((i, 'A', {'a': ('i', rng.randint(0, 3)), 'b': ('i', rng.randint(0, 2)), 's': ('s', 'ab'),
                               'flag': ('b', rng.randint(0, 1)), 'items': items,
                               't': ('t', ('i', 0), ('i', 1)), 'ref': ('o', rng.randrange(n))}))
@@ -729,7 +754,7 @@ def c16(report, rng, tier, findings):
             return False
         for _, _, a in case['objs']:
             it = a['items']
-            if it[0] == 'l' and len(set(it[1:])) != len(it[1:]):
+            if it[0] in ('l', 't') and len(set(it[1:])) != len(it[1:]):
                 return False
         return True
     qc.all_selected = strict
@@ -785,6 +810,11 @@ def c17(report, rng, tier, findings):
                                          'items': ('l',), 't': ('t', ('i', 0), ('i', 1)), 'ref': ('o', 0)}))
         praw = [('o', j) for j in range(npar)]
         oraw = [('o', npar + j) for j in range(extra)]
+        if rng.random() < 0.08:
+            # NO parent at all: the supplied collection holds no instance of the parent class (the concatenation of
+            # nothing is the empty list: still exactly one row, nothing is a member)
+            praw = list(oraw)
+            report.count('no_parent_in_the_domain')
         C = ('concat', 200, ('attr', 'items', ('var', 0)))
         kind = rng.choice(('value', 'member', 'notmember', 'contains', 'compound', 'compound', 'select_both'))
         if kind == 'value':
